@@ -12,6 +12,8 @@ import (
 	"testing"
 	"testing/synctest"
 	"time"
+
+	simrt "github.com/grafana/dskit/zzverifrt"
 )
 
 // Scenario is one simulated workload + oracle for a property.
@@ -147,7 +149,9 @@ func execute(t *testing.T, sc *Scenario, seed uint64, feed []int32, useFeed bool
 			s.KeepTrace, s.KeepLabels = o.keepTrace, o.keepLabels
 			s.parkSignal = make(chan struct{}, 1)
 			s.rootActive = true
+			s.rootGoid = goid()
 			s.start = time.Now()
+			simrt.Hook = nil
 			rand.Seed(int64(seed)) // global math/rand is used by dskit (needs GODEBUG=randseednop=0)
 			func() {
 				defer func() {
@@ -191,6 +195,7 @@ func (s *Sim) finish() {
 		close(t.ch)
 	}
 	synctest.Wait()
+	simrt.Hook = nil
 }
 
 func (s *Sim) TraceHash() string { return fmt.Sprintf("%016x", s.hash) }
@@ -326,12 +331,12 @@ func Main(t *testing.T) {
 	raw, err := os.ReadFile(jobPath)
 	if err != nil {
 		fmt.Fprintln(os.Stderr, "HARNESS-ERROR: cannot read job:", err)
-		os.Exit(2)
+		os.Exit(3)
 	}
 	var job Job
 	if err := json.Unmarshal(raw, &job); err != nil {
 		fmt.Fprintln(os.Stderr, "HARNESS-ERROR: bad job:", err)
-		os.Exit(2)
+		os.Exit(3)
 	}
 	var scs []*Scenario
 	for _, sc := range registry {
@@ -341,12 +346,12 @@ func Main(t *testing.T) {
 	}
 	if len(scs) == 0 {
 		fmt.Fprintln(os.Stderr, "HARNESS-ERROR: no scenario for", job.Prop)
-		os.Exit(2)
+		os.Exit(3)
 	}
 	for _, st := range selfTests {
 		if err := st(); err != nil {
 			fmt.Fprintln(os.Stderr, "HARNESS-ERROR: model self-test failed:", err)
-			os.Exit(2)
+			os.Exit(3)
 		}
 	}
 	switch job.Mode {
@@ -356,7 +361,7 @@ func Main(t *testing.T) {
 		replay(t, &job, scs)
 	default:
 		fmt.Fprintln(os.Stderr, "HARNESS-ERROR: bad mode", job.Mode)
-		os.Exit(2)
+		os.Exit(3)
 	}
 }
 
@@ -513,7 +518,7 @@ func explore(t *testing.T, job *Job, scs []*Scenario) {
 	writeOut(job.Out, out)
 	if out.HarnessErr != "" {
 		fmt.Fprintln(os.Stderr, "HARNESS-ERROR:", out.HarnessErr)
-		os.Exit(2)
+		os.Exit(3)
 	}
 }
 
@@ -542,7 +547,7 @@ func replay(t *testing.T, job *Job, scs []*Scenario) {
 	}
 	if sc == nil {
 		fmt.Fprintln(os.Stderr, "HARNESS-ERROR: unknown scenario", job.Scenario)
-		os.Exit(2)
+		os.Exit(3)
 	}
 	attempts := job.Attempts
 	if attempts <= 0 {
@@ -582,6 +587,6 @@ func replay(t *testing.T, job *Job, scs []*Scenario) {
 	writeOut(job.Out, out)
 	if out.HarnessErr != "" {
 		fmt.Fprintln(os.Stderr, "HARNESS-ERROR:", out.HarnessErr)
-		os.Exit(2)
+		os.Exit(3)
 	}
 }
